@@ -22,6 +22,9 @@ var constKinds = []constKind{
 	{"arr-small", "[1, 2, 3]", "[9]", "arr-large"}, {"arr-large", "[1, 2, 3, 4, 5, 6, 7, 8, 9, 10]", "[9]", ""},
 	{"map-small", `{"a": 1, "b": 2}`, `{"z": 0}`, "map-large"}, {"map-large", `{"a": 1, "b": 2, "c": 3, "d": 4, "e": 5, "f": 6}`, `{"z": 0}`, ""},
 	{"func", "func(x) {x + 1}", "func(x) {x + 2}", ""},
+	// containers that were large and became small again (the large representation holding few elements)
+	{"map-shrunk", `(func() {m = {"a": 1, "b": 2, "c": 3, "d": 4, "e": 5}; del(m.e); del(m.d); m})()`, `{"z": 0}`, ""},
+	{"arr-shrunk", "(1:12)[0:3]", "[9]", ""},
 }
 
 func c19Attempt(kind, scope string, ck constKind) string {
@@ -108,12 +111,38 @@ func c19ClosureInputs(h [][2]string, ck constKind) []string {
 	return in
 }
 
+// c19Rebind marks the inputs that legitimately give the constant ANOTHER value (explicit del, then a new binding, then a
+// function call before the next read): from there on the constant must print what that value prints in a fresh session.
+const c19Rebind = "del(K); K = "
+
 func c19Inputs(h [][2]string, ck constKind) []string {
 	in := []string{"K = " + ck.lit, "println(K)"}
+	cur := ck.lit
 	for _, op := range h {
+		if op[0] == "del-rebind" {
+			if cur == ck.lit {
+				cur = ck.other
+			} else {
+				cur = ck.lit
+			}
+			in = append(in, c19Rebind+cur+"; (func() {1})()", "println(K)", `println(func() {K}() == K)`)
+			continue
+		}
 		in = append(in, c19Attempt(op[0], op[1], ck), "println(K)", `println(func() {K}() == K)`)
 	}
 	return in
+}
+
+var c19FreshPrint = map[string]string{}
+
+// c19PrintOf: what `K = <lit>; println(K)` prints in a fresh session (registers do not matter for a top-level binding).
+func c19PrintOf(lit string) string {
+	if p, ok := c19FreshPrint[lit]; ok {
+		return p
+	}
+	obs, _ := runHistory([]string{"K = " + lit, "println(K)"}, RunOpt{})
+	c19FreshPrint[lit] = obs[1].Out
+	return obs[1].Out
 }
 
 // c19Judge: the constant prints the same after every attempt (self-relative), inside a body K never
@@ -124,6 +153,14 @@ func c19Judge(in []string, on, off []inObs) string {
 		return "the constant could not be printed after binding"
 	}
 	for i := 2; i < len(in); i++ {
+		if strings.HasPrefix(in[i], c19Rebind) { // the one legitimate change: the expected value is the new one from here on
+			lit := strings.TrimSuffix(strings.TrimPrefix(in[i], c19Rebind), "; (func() {1})()")
+			base = c19PrintOf(lit)
+			if on[i].Err || off[i].Err {
+				return fmt.Sprintf("explicit del and rebinding %q failed: %s / %s", in[i], on[i].Val, off[i].Val)
+			}
+			continue
+		}
 		if in[i] == "println(K)" || in[i] == "println(c.get())" {
 			if on[i].Out != base || off[i].Out != base {
 				return fmt.Sprintf("after %q the constant prints %q (registers off: %q), was %q", in[i-1], on[i].Out, off[i].Out, base)
